@@ -691,6 +691,11 @@ static void gen_failover(vh_rng_t *rng)
   if (vh_chance(rng, 1, 4)) {
     gen_add_action((int64_t)(vh_rand64(rng) % (uint64_t)(t + 1)), AA_SET_SERVERS, 0, 0);
   }
+  if (vh_chance(rng, 1, 3)) {
+    /* the channel is duplicated (and its configuration read back) somewhere along the way, i.e. with whatever failure
+     * counts its servers have at that moment */
+    gen_add_action((int64_t)(vh_rand64(rng) % (uint64_t)(t + 1)), AA_DUP, 0, 0);
+  }
   if (vh_chance(rng, 1, 5)) {
     /* everything outstanding is cancelled at some point (probe copies included): the history goes on afterwards */
     gen_add_action((int64_t)(vh_rand64(rng) % (uint64_t)(t + 1)), AA_CANCEL, 0, 0);
